@@ -399,6 +399,15 @@ type ContractFile struct {
 	Trusted []string // textual notes of trusted/assume/axiom lines
 	Axioms  []*Clause
 	SpecOpts map[string][]string // spec function name -> options (opaque, ...)
+	Preds    map[string]*Pred
+}
+
+// Pred is a contract-level predicate/macro: expanded at its use in the current state.
+type Pred struct {
+	Name   string
+	Params []string
+	Body   CExpr
+	Src    string
 }
 
 // parseContractFile reads //@ lines.
@@ -407,7 +416,7 @@ func parseContractFile(path, pkgPath string) (*ContractFile, error) {
 	if err != nil {
 		return nil, err
 	}
-	cf := &ContractFile{Path: path, PkgPath: pkgPath, SpecOpts: map[string][]string{}}
+	cf := &ContractFile{Path: path, PkgPath: pkgPath, SpecOpts: map[string][]string{}, Preds: map[string]*Pred{}}
 	var cur *FuncContract
 	var curLoop *LoopContract
 	lines := strings.Split(string(data), "\n")
@@ -483,6 +492,21 @@ func parseContractFile(path, pkgPath string) (*ContractFile, error) {
 			cur = &FuncContract{PkgPath: pkgPath, Loops: map[int]*LoopContract{}, File: path, Line: ln + 1, IsLemma: true, Key: "lemma:" + strings.TrimSpace(rest)}
 			curLoop = nil
 			cf.Funcs = append(cf.Funcs, cur)
+		case "pred":
+			// pred name(a, b): expr
+			i := strings.Index(rest, "(")
+			j := strings.Index(rest, ")")
+			k := strings.Index(rest, ":")
+			if i < 0 || j < i || k < j {
+				return nil, fmt.Errorf("%s:%d: pred syntax: pred name(params): expr", path, ln+1)
+			}
+			e, err := parseCExpr(strings.TrimSpace(rest[k+1:]))
+			if err != nil {
+				return nil, fmt.Errorf("%s:%d: %v", path, ln+1, err)
+			}
+			pd := &Pred{Name: strings.TrimSpace(rest[:i]), Params: splitNames(rest[i+1 : j]), Body: e, Src: rest}
+			cf.Preds[pd.Name] = pd
+			cur = nil
 		case "spec":
 			// spec Name opaque
 			f := strings.Fields(rest)
